@@ -164,6 +164,20 @@ def check_case(ctx, case):
                 formatted, T, in_dt, imperfect = vr.nibabel_image_to_info(
                     img2, ignore_scaling=case["ignore_scaling"],
                     options=options)
+                # the same image object may be described more than once
+                # (e.g. a dry run, then the real run): same answer expected
+                formatted_b, T_b, _, _ = vr.nibabel_image_to_info(
+                    img2, ignore_scaling=case["ignore_scaling"],
+                    options=options)
+                if json.loads(formatted_b) != json.loads(formatted) or \
+                        np.asarray(T_b).tolist() != np.asarray(T).tolist():
+                    ctx.fail("describing the same image object a second time "
+                             "gives a different info / transform: %s vs %s" %
+                             (np.asarray(T_b).tolist(),
+                              np.asarray(T).tolist()))
+                if not np.array_equal(np.asarray(img2.affine), A):
+                    ctx.fail("nibabel_image_to_info modified the image's "
+                             "affine")
         except SystemExit as exc:
             ctx.fail("command exited with %r" % (exc.code,))
         except Exception as exc:
